@@ -16,16 +16,24 @@ class NumberType(Type):
             if other is None:
                 return self.value, None
             elif other.dtype is None:
+                # two literals are compared as numbers in the unit of the right one
+                self.convert(other.unit)
                 self.value = float(self.value)
+                other.value = float(other.value)
             else:
                 if other.dtype in [int,float]:
+                    # numbers are compared as numbers (an integer node may meet 3.5)
                     self.convert(other.unit)
-                self.value = other.dtype(self.value)
+                    self.value = float(self.value)
+                else:
+                    self.value = other.dtype(self.value)
         elif other.dtype not in [int,float,str,bool]:
             # if other node datatype is unknown
             if self.dtype in [int,float]:
                 other.convert(self.unit)
-            other.value = self.dtype(other.value)
+                other.value = float(other.value)
+            else:
+                other.value = self.dtype(other.value)
         elif type(self)==type(other):
             # if both datatypes are known
             if self.dtype in [int,float]:
